@@ -2,11 +2,11 @@
      cty   := b | n | i[parts;parts] | o[parts] | s{cty*} | q[parts]cty | c{cty*} | R<0|1>cty | ?cty
      parts := empty | edge:edge(,edge:edge)*        edge := [-]digits | *   (MIN on the left, MAX on the right)
      val   := as in drv_rt.ml:  T | F | N | I<num>; | O<hex>; | S{val*} | L{val*} | C<num>:val | _ | !val
-   commands:
-     c08chk <cty> <val>        -> OK | FAIL <constraint|toolarge|absent|noalt|shape>     (the model of asn_check_constraints)
+   commands (<w> = 1: the module is compiled with -fwide-types, 0: not):
+     c08chk <w> <cty> <val>    -> OK | FAIL <constraint|toolarge|absent|noalt|shape>     (the model of asn_check_constraints)
      spec_c08sat <cty> <val>   -> true | false                                            (the Spec)
-     c08safe <cty>             -> true | false      (inside the region where check_exact is proved)
-     c08repr <cty> <val>       -> true | false      (every INTEGER fits the C type asn1c chose)
+     c08safe <w> <cty>         -> true | false      (inside the region where check_exact is proved)
+     c08repr <w> <cty> <val>   -> true | false      (every INTEGER fits the C type asn1c chose)
      c08clamp <maxlen> <vlen>  -> NONE | <errlen> <nulpos>                                (_asn_i_ctfailcb) *)
 open Model
 open Drvlib
@@ -102,10 +102,10 @@ let res_s = function ROk -> "OK" | RFail w -> "FAIL " ^ why_s w
 
 let dispatch cmd args =
   match cmd, args with
-  | "c08chk", [t; v] -> Some (res_s (check (ty_of t) (val_of v)))
+  | "c08chk", [w; t; v] -> Some (res_s (check (w = "1") (ty_of t) (val_of v)))
   | "spec_c08sat", [t; v] -> Some (bool_s (satisfies (ty_of t) (val_of v)))
-  | "c08safe", [t] -> Some (bool_s (safe (ty_of t) false))
-  | "c08repr", [t; v] -> Some (bool_s (repr (ty_of t) (val_of v)))
+  | "c08safe", [w; t] -> Some (bool_s (safe (w = "1") (ty_of t) false))
+  | "c08repr", [w; t; v] -> Some (bool_s (repr (w = "1") (ty_of t) (val_of v)))
   | "c08clamp", [m; v] ->
       Some (match ctfail_clamp (cz_of_string m) (cz_of_string v) with
             | None -> "NONE"
